@@ -380,6 +380,11 @@ class C14(F.Spec):
                     fs.append(F.Finding("port-wrapped-accepted", "prt=%s is outside 1..65535 but the port became %d" % (v.decode(), pt)))
             if "prt" in present and not (1 <= pt <= 65535) and pt != int.from_bytes(self.fld(before, "port"), "little", signed=True):
                 fs.append(F.Finding("port-out-of-range", "port %d" % pt))
+            if "qos" in o and "qos" in present:
+                q = int.from_bytes(self.fld(after, "qos", 1), "little", signed=False)
+                if not (0 <= q <= 2) and q != int.from_bytes(self.fld(before, "qos", 1), "little", signed=False):
+                    fs.append(F.Finding("qos-out-of-range", "QoS %d was stored (the request carries %s)"
+                                        % (q, [bytes.fromhex(vh)[:8] for k, vh in me.get("fields", []) if k == "qos"])))
             for idx in range(o["tm.n"]):
                 tm = int.from_bytes(self.fld(after, "tm")[idx:idx + 1], "little", signed=True)
                 if "tm%d" % idx in present and not (-1 <= tm <= 100):
